@@ -104,4 +104,22 @@ theorem generatorEntry2_eq (b1 b2 : Nat × Nat) (p1 p2 : Pattern) (i j : Nat)
       _ = b.1 * b.2 := Nat.mul_comm _ _
   exact reindexFromReordered_eq _ _ b1.1 b1.2 b2.1 b2.2 (hlt b1 p1 i h1 hi) (hlt b2 p2 j h2 hj)
 
+/-! ### level reordering of a matrix with data: `MLMatrix.reorder(axes)` -/
+
+theorem zipWith_map_map {α β γ δ : Type} (f : β → γ → δ) (g : α → β) (h : α → γ) : ∀ (l : List α),
+    List.zipWith f (l.map g) (l.map h) = l.map (fun a => f (g a) (h a))
+  | [] => rfl
+  | a :: l => by simp [zipWith_map_map f g h l]
+
+/-- `MLMatrix.reorder(axes)` permutes the levels and transposes the data tensor with the same `axes`:
+the entry with data index `μ` moves to data index `ν = (μ[axes[0]], μ[axes[1]], ...)`, and its position in the
+reordered matrix has, level by level, the (row, column) digits of the original entry, permuted by `axes`. -/
+theorem reorder_entryAt (S : MLStructure) (axes μ : List Nat) :
+    (S.reorder axes).entryAt (axes.map (fun j => μ.getD j 0)) =
+      (toSeq (axes.map (fun j => ((S.bidx.getD j []).getD (μ.getD j 0) (0, 0)).1)) (axes.map (fun j => (S.bs.getD j (0, 0)).1)),
+       toSeq (axes.map (fun j => ((S.bidx.getD j []).getD (μ.getD j 0) (0, 0)).2)) (axes.map (fun j => (S.bs.getD j (0, 0)).2))) := by
+  unfold MLStructure.entryAt MLStructure.reorder MLStructure.rows MLStructure.cols
+  simp only [zipWith_map_map, List.map_map]
+  rfl
+
 end Pyiga.ML
